@@ -90,6 +90,38 @@ def gen_class(ctx, res, stride, offset, label):
     res.add_sample({"leg": "F " + label, "parts": [p["text"] for p in vocab["parts"]], "domain_runes": d["domain"], "classes": d["classes"] - 1}, cap=7)
 
 
+def gen_fold(ctx, res, stride, offset, label):
+    """F leg for the IgnoreCase closure of ranges: Gen_Fold predicts [r-(r+1)] and [(r-1)-r] for every rune r with a case-fold orbit"""
+    ppath = os.path.join(ctx.dir, f"fold-{label}.json")
+    json.dump({"stride": stride, "offset": offset}, open(ppath, "w"))
+    out = ctx.tlc("Gen_Fold", "Obs.cfg", env_extra={"VERIF_PARAMS": ppath}, timeout=3000)
+    lines = [l for l in out["raw"].splitlines() if l.startswith('<<"F"')]
+    if not lines:
+        raise vlib.Broken("Gen_Fold predicted nothing")
+    first = json.loads(json.loads(lines[0][len('<<"F", '):-2]))
+    first["members"] = [x for x in first["dom"] if x not in first["members"]][:1] + first["members"]    # self-test: one wrong member
+    gpath = os.path.join(ctx.dir, f"foldgen-{label}.txt")
+    open(gpath, "w").write("\n".join(['<<"F", ' + json.dumps(json.dumps(first)) + '>>'] + lines) + "\n")
+    d = json.loads(ctx.run_vh(["replay-fold", "-i", gpath]).stdout)
+    os.remove(gpath)
+    if d["classes"] != len(lines) + 1:
+        raise vlib.Broken(f"replayer consumed {d['classes']} of {len(lines) + 1} predictions")
+    mm = d["mismatches"]
+    want = "[\\x{%X}-\\x{%X}]" % (first["lo"], first["hi"])
+    hit = [m for m in mm if m["class"] == want]
+    if not hit:
+        raise vlib.Broken("binding self-test failed: the replayer accepted a corrupted range prediction")
+    ctx.log(f"{label}: two-rune ranges={d['classes'] - 1} probes={d['cases']} mismatches={len(mm) - 1}")
+    seen_self = False
+    for m in mm:
+        if not seen_self and m["class"] == want:
+            seen_self = True
+            continue
+        res.violation(m)
+    res.evaluations += d["cases"]
+    res.traces += d["classes"] - 1
+
+
 def class_text(vocab, r):
     t = "[" + ("^" if r["neg"] else "") + vocab["parts"][r["p1"] - 1]["text"]
     if r["p2"] > 0:
@@ -104,7 +136,8 @@ def run(ctx, res):
     res.rule = ("F: Gen_Class enumerates EVERY class built from an ordered pair (or one) of 22 parts (letters with unusual case orbits a k s U+0130 U+212A U+03A3 U+01C5, A-Z, the two "
                 "blocks that leave exactly A-Z out, \\w \\W \\d \\S \\s, \\p{Lu} \\P{Lu} \\p{Ll} \\P{Lt}, [:upper:] [:^upper:] [:^alpha:]) x negation x {no subtraction, [a], [A-Z], [k], [\\w], [^a]} x IgnoreCase x "
                 "{default, RE2, ECMAScript} (27 024 classes; quick tier: every second one) and predicts the members among 185 domain runes; the replayer prints the parts in the given order and probes the real engine "
-                "(ASCII bitmap on/off alternating). B: class expressions from a random class grammar (single characters incl. escapes, ASCII/Latin/Greek/BMP/astral ranges, \\d\\D\\w\\W\\s\\S, "
+                "(ASCII bitmap on/off alternating). F2: Gen_Fold predicts, for every rune r with a simple case-fold orbit (2 878), the IgnoreCase classes [r-(r+1)] and [(r-1)-r] "
+                "on a domain of the range, its orbits, their neighbours and the fixed-offset images; the replayer probes the real engine (the range path of the class compiler). B: class expressions from a random class grammar (single characters incl. escapes, ASCII/Latin/Greek/BMP/astral ranges, \\d\\D\\w\\W\\s\\S, "
                 "\\p{..}/\\P{..} over 29 categories and scripts, POSIX names in RE2 mode, negation, nested subtraction) x IgnoreCase x {default, RE2, ECMAScript} "
                 "x ASCII bitmap on/off. The real membership is recorded for ALL 1 114 112 runes (\\A[..]\\z on one rune) and, on a sample domain, for 6 more "
                 "lookup paths (parsed CharSet.CharIn, loop, lazy loop, prefix-set search, after a loop, alternation, right-to-left). TLC compares with "
@@ -113,8 +146,10 @@ def run(ctx, res):
     S = 800 + (ctx.seed % 50) * 3
     if ctx.tier == "quick":
         gen_class(ctx, res, 2, ctx.seed % 2, "vocab-half")
+        gen_fold(ctx, res, 2, ctx.seed % 2, "fold-half")
     else:
         gen_class(ctx, res, 1, 0, "vocab")
+        gen_fold(ctx, res, 1, 0, "fold")
     if ctx.tier == "quick":
         obs_class(ctx, res, ["-n", "200", "-stream", str(S)], "q")
     else:
